@@ -74,6 +74,17 @@ func c11Inits() []c11Init {
 			os.Symlink(t, p)
 			return p
 		}},
+		// a valid key at the DEFAULT location (./anonymongo.enc.key in the working directory): runs without --encrypt
+		// have nothing to do with it
+		{"valid-at-default-location", "valid", func(dir string) string {
+			p := filepath.Join(dir, "anonymongo.enc.key")
+			os.WriteFile(p, []byte(valid), 0o600)
+			return p
+		}},
+		// a path spelled with a leading "~/" reaches the tool literally (no shell expanded it): "./~/the.key".  Without a
+		// directory named "~" the parent is missing; with one it is an ordinary absent key path.  HOME is the sandbox.
+		{"tilde-path-no-such-directory", "parent-missing", func(dir string) string { return "~/the.key" }},
+		{"tilde-path-directory-exists", "absent", func(dir string) string { os.Mkdir(filepath.Join(dir, "~"), 0o755); return "~/the.key" }},
 		{"null-device", "unusable", func(dir string) string { return "/dev/null" }},
 		{"symlink-to-null-device", "unusable", func(dir string) string {
 			p := filepath.Join(dir, "the.key")
@@ -96,6 +107,10 @@ func c11Inputs(dir string) (string, string) {
 		for i := 0; i < n; i++ {
 			ls = append(ls, LO("t", LO("$date", LS("2024-05-01T10:00:00.123+00:00")), "s", LS("I"), "c", LS("COMMAND"), "id", LN("51803"), "ctx", LS("conn1"), "msg", LS("Slow query"),
 				"attr", LO("ns", LS("d.c"), "command", LO("find", LS("c"), "filter", LO("who", LS(v), "n", LN(fmt.Sprint(i))), "$db", LS("d")))).JSON())
+		}
+		if name == "in2.log" {
+			// the second input starts with lines that hold nothing to encrypt (another component, text that is not JSON)
+			ls = append([]string{`{"t":{"$date":"2024-05-01T10:00:02.000+00:00"},"s":"I","c":"NETWORK","id":22943,"ctx":"listener","msg":"Connection accepted","attr":{"remote":"192.168.1.5:51234","connectionId":12}}`, "not json at all"}, ls...)
 		}
 		p := filepath.Join(dir, name)
 		os.WriteFile(p, []byte(strings.Join(ls, "\n")+"\n"), 0o644)
@@ -172,6 +187,10 @@ var c11OpNames = []string{"redact in1 --encrypt", "redact in2 --encrypt", "redac
 func c11Trace(c *Ctx, init c11Init, ops []int, sandbox string) (states []string) {
 	dir := freshDir(sandbox, "t")
 	kp := init.setup(dir)
+	kpAbs := kp // where the harness looks: relative key paths are relative to the working directory of the runs
+	if !filepath.IsAbs(kp) {
+		kpAbs = filepath.Join(dir, kp)
+	}
 	in1, in2 := c11Inputs(dir)
 	badLong, badGz, badMissing := c11BadInputs(dir)
 	outPath := filepath.Join(dir, "out.log")
@@ -185,7 +204,7 @@ func c11Trace(c *Ctx, init c11Init, ops []int, sandbox string) (states []string)
 	hist := init.name
 	states = append(states, c11Canon(st, generated))
 	for _, op := range ops {
-		before := c11Observe(kp)
+		before := c11Observe(kpAbs)
 		os.Remove(outPath)
 		var r CLIRes
 		var err error
@@ -222,7 +241,7 @@ func c11Trace(c *Ctx, init c11Init, ops []int, sandbox string) (states []string)
 		c.P.Transitions++
 		c.Eval(1)
 		hist += " ; " + opName[op]
-		after := c11Observe(kp)
+		after := c11Observe(kpAbs)
 		outB, _ := os.ReadFile(outPath)
 		viol := func(sig, what string) {
 			c.Outcome("model-mismatch")
@@ -237,6 +256,9 @@ func c11Trace(c *Ctx, init c11Init, ops []int, sandbox string) (states []string)
 				j, e := ParseJSON([]byte(l))
 				if e != nil {
 					return false
+				}
+				if cc := jget(j, "c"); cc != nil && cc.Str == "NETWORK" {
+					continue
 				}
 				v := follow(j, []int{6, 1, 1, 0})
 				if v == nil || v.Kind != JStr {
@@ -365,7 +387,7 @@ func c11Trace(c *Ctx, init c11Init, ops []int, sandbox string) (states []string)
 				if after.keyMode != 0o600 {
 					viol("absent:key-file-mode", fmt.Sprintf("the key file is created with mode %o, not owner-only", after.keyMode))
 				}
-				if rk, e := ReadKeyFromFile(kp); e != nil || !bytes.Equal(rk, raw) {
+				if rk, e := ReadKeyFromFile(kpAbs); e != nil || !bytes.Equal(rk, raw) {
 					viol("absent:key-does-not-read-back", "the stored key does not read back as the same key")
 				}
 				if !checkCipher(raw) {
